@@ -31,6 +31,7 @@ import (
 	"net/http/httptest"
 	"os"
 	"strings"
+	"sync"
 	"sync/atomic"
 
 	"github.com/modelcontextprotocol/go-sdk/jsonrpc"
@@ -55,12 +56,16 @@ func (o gcOp) text() string {
 		return "copen " + o.tr
 	case "chs":
 		return fmt.Sprintf("chs %d", o.k)
+	case "choldq":
+		return fmt.Sprintf("choldq %d", o.k)
+	case "crelease":
+		return fmt.Sprintf("crelease %d", o.k)
 	}
 	id := "noid"
 	if o.hasID {
 		id = "id"
 	}
-	return fmt.Sprintf("ccall %d %s %s %s", o.k, hxs(o.name), id, o.shape)
+	return fmt.Sprintf("%s %d %s %s %s", o.kind, o.k, hxs(o.name), id, o.shape)
 }
 
 func gcParse(ln string) (gcOp, bool) {
@@ -73,6 +78,14 @@ func gcParse(ln string) (gcOp, bool) {
 		return gcOp{kind: "creg", name: gateUnhex(f[1])}, true
 	case f[0] == "copen" && len(f) == 2:
 		return gcOp{kind: "copen", tr: f[1]}, true
+	case (f[0] == "choldq" || f[0] == "crelease") && len(f) == 2:
+		k := 0
+		fmt.Sscanf(f[1], "%d", &k)
+		return gcOp{kind: f[0], k: k}, true
+	case f[0] == "ccallq" && len(f) == 5:
+		k := 0
+		fmt.Sscanf(f[1], "%d", &k)
+		return gcOp{kind: "ccallq", k: k, name: gateUnhex(f[2]), hasID: f[3] == "id", shape: f[4]}, true
 	case f[0] == "chs" && len(f) == 2:
 		k := 0
 		fmt.Sscanf(f[1], "%d", &k)
@@ -108,9 +121,26 @@ type gcSess struct {
 	ss   *ServerSession
 	sid  string // http
 	cs   *ClientSession // cli
+	// a notification handler of the session is parked on gate: the session's queue is stopped; queued: the
+	// calls written meanwhile (id as it will come back, "" for none)
+	gate   chan struct{}
+	queued []string
 }
 
 var gcShapes = []string{"absent", "null", "ok", "undecodable", "wrongtype"}
+
+const gcMeta = `"_meta":{"io.modelcontextprotocol/protocolVersion":"2026-07-28","io.modelcontextprotocol/clientInfo":{"name":"verif","version":"1"},"io.modelcontextprotocol/clientCapabilities":{}}`
+
+// gcParamsModern: object params carry complete per-request metadata naming 2026-07-28; the other shapes cannot.
+func gcParamsModern(shape string) string {
+	switch shape {
+	case "ok":
+		return `,"params":{"text":"hi",` + gcMeta + `}`
+	case "undecodable":
+		return `,"params":{"text":5,` + gcMeta + `}`
+	}
+	return gcParams(shape)
+}
 
 func gcParams(shape string) string {
 	switch shape {
@@ -129,12 +159,22 @@ func gcParams(shape string) string {
 // gcPost drives one POST through the handler; returns the status, the session id header and the JSON-RPC
 // messages of the body (application/json or text/event-stream). hung: the handler did not return at quiescence.
 func gcPost(h http.Handler, sid, body string) (status int, outSid string, msgs []map[string]json.RawMessage, hung bool) {
+	return gcPostH(h, sid, body, "")
+}
+
+// gcPostH: modernMethod != "": a sessionless POST under the 2026-07-28 protocol (Mcp-Protocol-Version and Mcp-Method
+// headers), as sent to a stateless handler.
+func gcPostH(h http.Handler, sid, body, modernMethod string) (status int, outSid string, msgs []map[string]json.RawMessage, hung bool) {
 	req := httptest.NewRequest(http.MethodPost, "http://verif.invalid/", strings.NewReader(body))
 	req.Header.Set("Content-Type", "application/json")
 	req.Header.Set("Accept", "application/json, text/event-stream")
 	if sid != "" {
 		req.Header.Set(sessionIDHeader, sid)
 		req.Header.Set(protocolVersionHeader, protocolVersion20250618)
+	}
+	if modernMethod != "" {
+		req.Header.Set(protocolVersionHeader, protocolVersion20260728)
+		req.Header.Set(methodHeader, modernMethod)
 	}
 	ctx, cancel := context.WithCancel(context.Background())
 	defer cancel()
@@ -187,10 +227,20 @@ func gcRunCase(t *testing.T, c gcCase, emit func(i int, obs string)) {
 		ctx, cancel := context.WithCancel(context.Background())
 		defer cancel()
 		var ran atomic.Int64
+		var gates sync.Map // *ServerSession -> chan struct{}: the session's progress handler parks on it
+		var parked atomic.Int64
 		server := NewServer(&Implementation{Name: "verif-server", Version: "1"}, &ServerOptions{
 			Logger: slog.New(slog.NewTextHandler(io.Discard, nil)),
+			ProgressNotificationHandler: func(_ context.Context, req *ProgressNotificationServerRequest) {
+				if g, ok := gates.Load(req.Session); ok {
+					parked.Add(1)
+					<-g.(chan struct{})
+					parked.Add(-1)
+				}
+			},
 		})
 		handler := NewStreamableHTTPHandler(func(*http.Request) *Server { return server }, nil)
+		stateless := NewStreamableHTTPHandler(func(*http.Request) *Server { return server }, &StreamableHTTPOptions{Stateless: true})
 		var sess []*gcSess
 		nextID := 100
 		for i, op := range c.ops {
@@ -211,7 +261,11 @@ func gcRunCase(t *testing.T, c gcCase, emit func(i int, obs string)) {
 					emit(i, "ok")
 				}
 			case "copen":
-				if op.tr == "cli" {
+				if op.tr == "hnew" {
+					// the stateless handler: nothing to set up, every call is its own POST under the new protocol
+					sess = append(sess, &gcSess{tr: "hnew"})
+					emit(i, "ok")
+				} else if op.tr == "cli" {
 					ct, st := NewInMemoryTransports()
 					ss, err := server.Connect(ctx, st, nil)
 					if err != nil {
@@ -266,7 +320,88 @@ func gcRunCase(t *testing.T, c gcCase, emit func(i int, obs string)) {
 						emit(i, "ok")
 					}
 				}
+			case "choldq":
+				// a notification whose handler parks: the session's queue stops (label 0 of the race)
+				if op.k >= len(sess) || sess[op.k].tr != "mem" || sess[op.k].gate != nil {
+					emit(i, "na")
+					continue
+				}
+				s := sess[op.k]
+				g := make(chan struct{})
+				gates.Store(s.ss, g)
+				before := parked.Load()
+				go s.peer.write(`{"jsonrpc":"2.0","method":"notifications/progress","params":{"progressToken":"t","progress":1}}`)
+				synctest.Wait()
+				s.peer.takeResps()
+				if parked.Load() > before {
+					s.gate = g
+					emit(i, "ok")
+				} else {
+					gates.Delete(s.ss) // refused by the gate (no initialize yet): nothing is parked
+					emit(i, "na")
+				}
+			case "ccallq":
+				// label 1: the call is written while the queue is stopped
+				if op.k >= len(sess) || sess[op.k].gate == nil {
+					emit(i, "na")
+					continue
+				}
+				s := sess[op.k]
+				nextID++
+				idTok, want := "", ""
+				if op.hasID {
+					idTok, want = fmt.Sprintf(`"id":%d,`, nextID), fmt.Sprint(nextID)
+				}
+				mname, _ := json.Marshal(op.name)
+				go s.peer.write(fmt.Sprintf(`{"jsonrpc":"2.0",%s"method":%s%s}`, idTok, mname, gcParams(op.shape)))
+				synctest.Wait()
+				if early := s.peer.takeResps(); len(early) > 0 {
+					emit(i, "early:"+gateWire1(early, want, op.hasID))
+				} else {
+					emit(i, "queued")
+				}
+				s.queued = append(s.queued, want)
+			case "crelease":
+				// label 2: the parked handler returns, the queue runs
+				if op.k >= len(sess) || sess[op.k].gate == nil {
+					emit(i, "na")
+					continue
+				}
+				s := sess[op.k]
+				before := ran.Load()
+				gates.Delete(s.ss)
+				close(s.gate)
+				s.gate = nil
+				synctest.Wait()
+				resps := s.peer.takeResps()
+				var ws []string
+				used := 0
+				for _, want := range s.queued {
+					var mine []map[string]json.RawMessage
+					if want != "" {
+						for _, r := range resps {
+							if string(r["id"]) == want {
+								mine = append(mine, r)
+							}
+						}
+					}
+					used += len(mine)
+					ws = append(ws, gateWire1(mine, want, want != ""))
+				}
+				if used < len(resps) {
+					ws = append(ws, fmt.Sprintf("stray%d", len(resps)-used))
+				}
+				s.queued = nil
+				r := "-"
+				if len(ws) > 0 {
+					r = strings.Join(ws, ";")
+				}
+				emit(i, fmt.Sprintf("r=%s h=%d", r, ran.Load()-before))
 			case "chs":
+				if op.k < len(sess) && sess[op.k].gate != nil {
+					emit(i, "na") // would only be queued
+					continue
+				}
 				if op.k >= len(sess) || sess[op.k].tr != "mem" {
 					emit(i, "na")
 					continue
@@ -289,6 +424,10 @@ func gcRunCase(t *testing.T, c gcCase, emit func(i int, obs string)) {
 					continue
 				}
 				s := sess[op.k]
+				if s.gate != nil {
+					emit(i, "na") // would only be queued
+					continue
+				}
 				nextID++
 				idTok, want := "", ""
 				if op.hasID {
@@ -329,6 +468,13 @@ func gcRunCase(t *testing.T, c gcCase, emit func(i int, obs string)) {
 					default:
 						w = "none" // the call is still waiting for its response
 					}
+				} else if s.tr == "hnew" {
+					env = fmt.Sprintf(`{"jsonrpc":"2.0",%s"method":%s%s}`, idTok, mname, gcParamsModern(op.shape))
+					st, _, msgs, hung := gcPostH(stateless, "", env, op.name)
+					w, hs = gateWire1(msgs, want, op.hasID), fmt.Sprint(st)
+					if hung {
+						hs = "hung"
+					}
 				} else if s.tr == "mem" {
 					go s.peer.write(env)
 					synctest.Wait()
@@ -344,6 +490,14 @@ func gcRunCase(t *testing.T, c gcCase, emit func(i int, obs string)) {
 			}
 		}
 		// tear down: everything in the bubble must exit
+		for _, s := range sess {
+			if s.gate != nil {
+				gates.Delete(s.ss)
+				close(s.gate)
+				s.gate = nil
+			}
+		}
+		synctest.Wait()
 		for _, s := range sess {
 			if s.tr == "mem" {
 				go s.ss.Close()
@@ -391,12 +545,23 @@ func gcRandom(id string, rng *rand.Rand) gcCase {
 			}
 			c.ops = append(c.ops, gcOp{kind: "creg", name: name})
 		case r < 34 || nsess == 0:
-			tr := []string{"mem", "mem", "http", "http", "cli"}[rng.Intn(5)]
+			tr := []string{"mem", "mem", "http", "http", "cli", "hnew", "hnew"}[rng.Intn(7)]
 			c.ops = append(c.ops, gcOp{kind: "copen", tr: tr})
 			trs = append(trs, tr)
 			nsess++
-		case r < 46:
+		case r < 44:
 			c.ops = append(c.ops, gcOp{kind: "chs", k: rng.Intn(nsess)})
+		case r < 50:
+			c.ops = append(c.ops, gcOp{kind: "choldq", k: rng.Intn(nsess)})
+		case r < 60:
+			name := gcNames[rng.Intn(3)]
+			shape := "ok"
+			if rng.Intn(3) == 0 {
+				shape = gcShapes[rng.Intn(len(gcShapes))]
+			}
+			c.ops = append(c.ops, gcOp{kind: "ccallq", k: rng.Intn(nsess), name: name, hasID: rng.Intn(5) != 0, shape: shape})
+		case r < 66:
+			c.ops = append(c.ops, gcOp{kind: "crelease", k: rng.Intn(nsess)})
 		default:
 			name := gcNames[rng.Intn(len(gcNames))]
 			if rng.Intn(10) == 0 {
@@ -428,7 +593,7 @@ func gcRandom(id string, rng *rand.Rand) gcCase {
 // gcOrders: every order of {register, set the session up, handshake} before one call, per transport, id, shape.
 func gcOrders() []gcCase {
 	var out []gcCase
-	for _, tr := range []string{"mem", "http", "cli"} {
+	for _, tr := range []string{"mem", "http", "cli", "hnew"} {
 		for _, order := range [][]string{{"reg", "open", "hs"}, {"open", "reg", "hs"}, {"open", "hs", "reg"}, {"open", "hs"}, {"reg", "open"}, {"open", "reg"}} {
 			for _, hasID := range []bool{true, false} {
 				for _, shape := range gcShapes {
@@ -450,6 +615,33 @@ func gcOrders() []gcCase {
 					c.ops = append(c.ops, gcOp{kind: "ccall", k: 0, name: "acme/a", hasID: true, shape: "ok"})
 					out = append(out, c)
 				}
+			}
+		}
+	}
+	return out
+}
+
+// gcRaces: a call queued on a held pipe session, with the registration of its method before the call is written,
+// while it is queued, or after the queue ran; per id and params shape; two queued calls.
+func gcRaces() []gcCase {
+	var out []gcCase
+	pre := []gcOp{{kind: "copen", tr: "mem"}, {kind: "chs", k: 0}}
+	reg := gcOp{kind: "creg", name: "acme/a"}
+	for _, hasID := range []bool{true, false} {
+		for _, shape := range gcShapes {
+			call := gcOp{kind: "ccallq", k: 0, name: "acme/a", hasID: hasID, shape: shape}
+			hold, rel := gcOp{kind: "choldq", k: 0}, gcOp{kind: "crelease", k: 0}
+			probe := gcOp{kind: "ccall", k: 0, name: "acme/a", hasID: true, shape: "ok"}
+			for _, body := range [][]gcOp{
+				{reg, hold, call, rel, probe},
+				{hold, reg, call, rel, probe},
+				{hold, call, reg, rel, probe},
+				{hold, call, rel, reg, probe},
+				{hold, call, call, reg, call, rel, probe},
+			} {
+				c := gcCase{id: fmt.Sprintf("q%d", len(out)), tag: "race"}
+				c.ops = append(append(c.ops, pre...), body...)
+				out = append(out, c)
 			}
 		}
 	}
@@ -491,6 +683,7 @@ func TestVerifGateCustom(t *testing.T) {
 	} else {
 		if os.Getenv("VERIF_CASES") == "" {
 			cases = append(cases, gcOrders()...)
+			cases = append(cases, gcRaces()...)
 		}
 		n := verifN(400, 4000)
 		for i := 0; i < n; i++ {
